@@ -17,6 +17,38 @@ CHECKS = {
    "Seeded search over configuration histories (levels, run-time level registrations, sticky process-wide debug mode, production/testing process mode), each followed by an exhaustive sweep of every logger x severity x public entry point in the reached state; every call is observed at simulated destinations and compared with the admission rule of the statement and with every other entry point. Sampling of histories, exhaustive within a reached state.",
    "Trusted: the overlay rewriter, the world interpreter, Level() getter as the logger's level (its agreement with the history is C10's business), is.DebugMode() as the debug-mode state. OK/Success/Fail and non-ordinal logger levels are checked for Off/Always and cross-entry-point consistency only (the statement does not give their class).",
    "deterministic simulation: seeded op histories in one world process per episode, I/O observed at simulated destinations, reference admission model", "DESIGN.md §5 C01"),
+ "C03": ("HIST+PROC", "exploration",
+   "Seeded writer-configuration histories (method and New-option forms) over a pool of simulated destinations of every interface kind, probed after every op at error-class, normal-class, per-severity and registered custom severities; the package defaults are observed as the real fd 1/2 of the world process; each destination's event sequence is checked for the severity notification.",
+   "Not demanded (statement silent): removal of a writer present twice (never generated), nil writer arguments (never generated), whether ResetWriters forgets per-severity writers (probes of those severities are skipped until re-established).",
+   "deterministic simulation: op histories vs reference routing model, per-writer I/O event logs, real stdout/stderr of the world process", "DESIGN.md §5 C03"),
+ "C07": ("HIST", "exploration",
+   "Seeded logger chains, inherit-flag toggles, context keys and call-site argument lists with forced key collisions; every attribute occurrence carries a unique value so the decoded record (all three formats) is compared pair by pair, in order, with a reference merge; the pool tape varies whether the per-call attribute slice and formatting buffer are fresh or recycled.",
+   "Keys and values stay inside an encoding-safe alphabet (C04-C06 are not claimed); in JSON mode groups are compared on leaf keys only because the JSON group syntax is C04's business.",
+   "deterministic simulation: history + pool-recycling tape, reference merge model, tolerant decoder", "DESIGN.md §5 C07"),
+ "C10": ("HIST+PROC", "exploration",
+   "Seeded histories over a growing logger forest with a reference tree run in lock-step: after every op the getters of all loggers are compared (isolation), New/With/Set return-value identity is checked, lookups are compared with the creation history; the simulated clock's granularity and the map-order tape are part of the search because anonymous child names come from the clock and the child index is a Go map; final probe records check the settings without getters (attrs, writers on real fd 1/2, UTC mode, layout).",
+   "In testing-mode worlds nothing is claimed about the initial default level (learned from the first snapshot). UTC mode and layout are used with explicit arguments only.",
+   "deterministic simulation: histories vs reference tree, simulated clock granularity, map-iteration-order tape", "DESIGN.md §5 C10"),
+ "C11": ("HIST", "exploration",
+   "Complete enumeration of all mode-call sequences up to length 3 (quick) / 4 (thorough) over a parent and child, plus seeded longer sequences with With*/New options over up to 4 loggers; getters of every logger after every op and the byte shape of a probe per logger against the three-state model.",
+   "Zero boolean arguments are read as true; several booleans are only generated with equal values.",
+   "deterministic simulation (history refinement against a 3-state model; exhaustive core)", "DESIGN.md §5 C11"),
+ "C15": ("HIST+PROC", "exploration",
+   "Seeded handler-derivation histories and bridge tables: records enter through a real log/slog.Logger, through explicit slog.Records given to Enabled+Handle, through log.Logger on the bridge and through Entry.Log; emitted-once, severity name, message, record time and attributes are decoded at the simulated destination of the underlying logger; a third of the production worlds run with interrupts enabled so that a wrongly terminating level mapping kills the world process.",
+   "Attribute kinds bool/float/duration/time are checked by key presence only (their rendering is C04/C05); duplicate keys are not generated (C07).",
+   "deterministic simulation: derivation histories, I/O counts at simulated destinations, process death as observation", "DESIGN.md §5 C15"),
+ "C16": ("HIST", "exploration",
+   "The simulated clock (years 0001-9999, zones, jumps, granularity) is the only clock logg reads; configurations (flags, UTC mode, layouts, formats) are sampled; the printed time text must equal the record's instant - the single clock read of the call, or the explicit instant of WriteThru - moved to the zone the statement gives and formatted with the logger layout or the exported layout constant matching the flags.",
+   "For the three flag sets without a matching exported layout any exported layout is accepted. time.Time.Format is the reference for 'formatted with layout'.",
+   "deterministic simulation: simulated clock with jumps/zones, configuration sampling", "DESIGN.md §5 C16"),
+ "C17": ("PROC", "exploration",
+   "One world process per registration history (the registry has no unregister): after every RegisterLevel every known level is round-tripped through all name/marshal forms, a refused call must leave the observable registry byte-identical to the query taken just before it, an accepted one is followed by a gated and a routed probe.",
+   "Must-refuse = value already a level or title exactly equal to a name in use; a title differing only in case from a name in use may be accepted or refused (round trips must hold either way). Titles are non-empty ASCII.",
+   "deterministic simulation: process-per-history, before/after registry snapshots, reference registry", "DESIGN.md §5 C17"),
+ "C18": ("HIST", "exploration",
+   "World parameters $HOME/cwd and mapping histories; each base history runs under 24 map-order tapes so that every iteration order of a mapping table of <= 4 entries is exercised; queries through Safety, SafetyFiles and the caller.file of records; order-independent oracle (no protected prefix leaks, outside paths unchanged or shorter relative equivalent, exactly-one-mapping => only the prefix replaced).",
+   "ResetKnownPathMapping and removal of the home/cwd entries are not generated (the statement protects the home directory unconditionally). Queries under /Volumes/ are not judged.",
+   "deterministic simulation: enumerated map-iteration orders through the overlay seam, histories, world parameters", "DESIGN.md §5 C18"),
 }
 
 def main():
